@@ -49,6 +49,18 @@ def do_case(ctx, inp):
         ctx.fail("negation-leaves-solver-safe-form", {"negated_model": tn})
     if not t["gen"] and tn["id"] != t["id"]:
         ctx.fail("explicit-id-lost", {"id": t["id"], "negated_id": tn["id"]})
+    # … and the negation is a proposition like any other: negated once more it is the model again — same explicit id, same value
+    # on every assignment (the statement holds for the RESULT of a negation too)
+    try:
+        n2 = copy.deepcopy(n).negate()
+        t2n = snap(n2)
+    except Exception as e:
+        ctx.fail("negating-a-negation-raised", {"exception": f"{type(e).__name__}: {str(e)[:160]}"}); return
+    if not t["gen"] and (t2n["id"] != t["id"] or t2n["gen"]):
+        ctx.fail("explicit-id-lost-by-the-second-negation", {"id": t["id"], "after_two_negations": t2n["id"], "counts_as_generated": t2n["gen"]}); return
+    for sigma in assignments(ctx.rng, lv, 24):
+        if n2.evaluate(sigma).constant != o.evaluate(sigma).constant:
+            ctx.fail("double-negation-is-not-the-model", {"sigma": sigma}); return
 
 
 def do_not_case(ctx, inp):
